@@ -27,6 +27,8 @@ type SyncCase struct {
 	FilterUID bool         `json:"filteruid,omitempty"` // source owned by 4242:4242, receiver Filter maps ownership to 0:0
 	// FilterShift: source owned by 7:8, receiver Filter ADDS 1000 to both ids (a filter that is not idempotent)
 	FilterShift bool `json:"filtershift,omitempty"`
+	// FilterXattr: the receiver's Filter edits the xattr map of the stat it is handed in place (drops user.k, adds user.f)
+	FilterXattr bool `json:"filterxattr,omitempty"`
 	MemEOF      bool `json:"memeof,omitempty"`   // in-memory source whose readers return the last bytes together with io.EOF
 	MemShort    int  `json:"memshort,omitempty"` // in-memory source whose readers deliver at most this many bytes per call
 	// MemResize: in-memory source whose files changed size between listing and reading: readers deliver
@@ -59,6 +61,9 @@ func (c SyncCase) String() string {
 	}
 	if c.MemShort > 0 {
 		s += fmt.Sprintf(" source-readers-deliver-at-most=%dB", c.MemShort)
+	}
+	if c.FilterXattr {
+		s += " filter-edits-xattrs-in-place"
 	}
 	if c.Notify || c.FilterShift || c.FilterUID {
 		s += fmt.Sprintf(" notify=%v filter-shift=%v filter-uid=%v", c.Notify, c.FilterShift, c.FilterUID)
@@ -189,6 +194,20 @@ func (d *syncDirs) transferFault(c SyncCase, srcTree fsmodel.Tree, fault xfer.Fa
 	if c.FilterShift {
 		opt.Filter = func(p string, st *types.Stat) bool {
 			st.Uid, st.Gid = st.Uid+1000, st.Gid+1000
+			return true
+		}
+	}
+	if c.FilterXattr {
+		opt.Filter = func(p string, st *types.Stat) bool {
+			if st.Xattrs != nil {
+				delete(st.Xattrs, "user.k")
+				st.Xattrs["user.f"] = []byte("set by the filter")
+				for k := range st.Xattrs {
+					if len(st.Xattrs[k]) > 0 {
+						st.Xattrs[k][0] ^= 0x20 // ... and scribbles on a value it was handed
+					}
+				}
+			}
 			return true
 		}
 	}
